@@ -774,8 +774,20 @@ pub fn oracle_c15(ctx: &Ctx, sub: &str, idx: u64, case: &Case, obs: &Observed, o
     let si = obs.stream.stream_info().clone();
     for (i, f) in obs.rep.frames.iter().enumerate().take(4) {
         let fb = &bytes[f.offset..f.offset + f.len];
+        // every second frame the parser OBJECT has been used before, the way a streaming reader
+        // uses it: on a prefix of the frame (incomplete) and on a copy whose last byte is damaged
+        // (every subframe is read before the CRC-16 refuses it); the object must carry nothing over
+        let mut bad = fb.to_vec();
+        if let Some(l) = bad.last_mut() {
+            *l ^= 0x01;
+        }
         let r = catch(|| {
             let mut p = flacenc::component::parser::frame::<NomErr<'_>>(&si, true);
+            if i % 2 == 1 {
+                let _ = p(&fb[..fb.len() / 2]);
+                let _ = p(&fb[..fb.len() - 1]);
+                let _ = p(&bad);
+            }
             p(fb).map(|(rest, fr)| (rest.len(), fr)).map_err(|e| format!("{e:?}").chars().take(200).collect::<String>())
         });
         match r {
